@@ -259,3 +259,150 @@ Section Run.
       pose proof (stack_cost_nonneg (dstack s1)). pose proof (stack_cost_nonneg (astack s1)). lia.
   Qed.
 End Run.
+
+(* ---------- termination: explicit fuel bound, result independent of extra fuel ---------- *)
+
+Lemma cube_mono a b : 0 <= a <= b -> a ^ 3 <= b ^ 3.
+Proof. intros. apply Z.pow_le_mono_l. lia. Qed.
+
+Definition child_small (s c : vmst) : Prop :=
+  0 <= runlimit c /\ pot c + 64 <= pot s /\ plen c + 72 <= pot s /\ pc c = 0%N.
+
+Lemma fb_step s s' :
+  0 <= runlimit s -> 0 <= runlimit s' -> pot s' + min_cost s <= pot s -> prog s' = prog s ->
+  (multisig0 s = true -> pc s' = (pc s + 1)%N) ->
+  (pc s < N.of_nat (length (prog s)))%N ->
+  fuel_bound s' + 1 <= fuel_bound s.
+Proof.
+  intros Hr Hr' Hp Hprog Hpc Hlt. unfold fuel_bound, plen. rewrite Hprog.
+  pose proof (pot_nonneg s Hr) as HP. pose proof (pot_nonneg s' Hr') as HP'.
+  set (P := pot s) in *. set (P' := pot s') in *. set (L := Z.of_nat (length (prog s))).
+  assert (HL : 0 <= L) by (unfold L; lia).
+  assert (Hlt' : Z.of_N (pc s) < L) by (unfold L; lia).
+  unfold min_cost in Hp. destruct (multisig0 s).
+  - rewrite (Hpc eq_refl).
+    assert (P' * (L + 1) <= P * (L + 1)) by (apply Z.mul_le_mono_nonneg_r; lia).
+    assert ((P' + 1) ^ 3 <= (P + 1) ^ 3) by (apply cube_mono; lia).
+    lia.
+  - assert (P' * (L + 1) <= (P - 1) * (L + 1)) by (apply Z.mul_le_mono_nonneg_r; lia).
+    assert ((P' + 1) ^ 3 <= (P + 1) ^ 3) by (apply cube_mono; lia).
+    lia.
+Qed.
+
+Lemma fb_child s c : 0 <= runlimit s -> child_small s c -> fuel_bound c + 1 <= fuel_bound s.
+Proof.
+  intros Hr (Hrc & Hp & Hl & Hpc). unfold fuel_bound. rewrite Hpc.
+  pose proof (pot_nonneg s Hr) as HP. pose proof (pot_nonneg c Hrc) as HPc.
+  assert (HLc : 0 <= plen c) by (unfold plen; lia).
+  assert (HLs : 0 <= plen s) by (unfold plen; lia).
+  set (P := pot s) in *. set (Pc := pot c) in *. set (Lc := plen c) in *. set (Ls := plen s) in *.
+  assert (H1 : Pc * (Lc + 1) <= P * P).
+  { transitivity (P * (Lc + 1)); [apply Z.mul_le_mono_nonneg_r; lia | apply Z.mul_le_mono_nonneg_l; lia]. }
+  assert (H2 : (Pc + 1) ^ 3 <= P ^ 3) by (apply cube_mono; lia).
+  assert (H3 : (P + 1) ^ 3 = P ^ 3 + 3 * (P * P) + 3 * P + 1) by ring.
+  assert (H4 : 0 <= P * Ls + P) by nia.
+  assert (H5 : 0 <= P * P) by nia.
+  replace (Z.of_N 0) with 0 by reflexivity.
+  replace (P * (Ls + 1)) with (P * Ls + P) by ring. lia.
+Qed.
+
+Section Term.
+  Variable cr : crypto.
+  Variable cx : context.
+  Hypothesis Hsane : co_sane cx.
+
+  Definition nooof (e : vmerr) : Prop := e <> EOutOfFuel.
+
+  Lemma Hco_nooof : forall f idx amt asset vmv code alt ex e,
+    cx_checkoutput cx = Some f -> f idx amt asset vmv code alt ex = inl e -> nooof e.
+  Proof. intros f idx amt asset vmv code alt ex e Hf He ->. eapply Hsane; eauto. Qed.
+
+  Lemma step_ext rc1 rc2 s : 0 <= runlimit s ->
+    (forall c, child_small s c -> rc1 c = rc2 c) -> step cr cx rc1 s = step cr cx rc2 s.
+  Proof.
+    intros Hr H. unfold step. destruct (parse_op (prog s) (pc s)) as [e|i]; [reflexivity|].
+    destruct (is_expansion (i_op i)); [reflexivity|].
+    set (npc := ((pc s + i_len i) mod two32)%N).
+    set (s2 := set_vdata (set_deferred (set_nextpc s npc) 0) (i_data i)).
+    rewrite (exec_op_ext cr cx rc1 rc2 (i_op i) s2); [reflexivity|].
+    intros ck s' Hp. apply H.
+    assert (HI : I (pot s) (prog s) npc true 0 s2).
+    { unfold I, fr, pot, s2. simp_st. repeat split; try lia; try (left; reflexivity). }
+    pose proof (cp_prefix_spec anyerr (fun _ _ => Logic.I) _ _ _ _ _ _ HI) as Hw.
+    unfold wp in Hw. rewrite Hp in Hw.
+    destruct Hw as (limit & pred & Hck & Hl & HI' & Hpred & _).
+    rewrite Hck. unfold child_small, pot, plen, mk_child. simp_st. change (stack_cost []) with 0.
+    destruct HI' as (_ & Hr' & Hd' & Hpot' & _). unfold pot in Hpot'.
+    rewrite (stack_cost_split (snd ck) (dstack s')) in Hpot'.
+    pose proof (stack_cost_nonneg (skipn (snd ck) (dstack s'))).
+    pose proof (stack_cost_nonneg (astack s')).
+    unfold item_cost in Hpred. unfold pot. repeat split; lia.
+  Qed.
+
+  Lemma fuel_bound_pos s : 0 <= runlimit s -> 1 <= fuel_bound s.
+  Proof.
+    intros Hr. pose proof (pot_nonneg s Hr). unfold fuel_bound.
+    assert (0 <= plen s) by (unfold plen; lia).
+    assert (0 <= pot s * (plen s + 1)) by (apply Z.mul_nonneg_nonneg; lia).
+    assert (0 <= (pot s + 1) ^ 3) by (apply Z.pow_nonneg; lia). lia.
+  Qed.
+
+  Lemma fuel_enough f : forall s, 0 <= runlimit s -> fuel_bound s <= Z.of_nat f ->
+    is_oof (run cr cx f s) = false /\
+    forall f', (f <= f')%nat -> run cr cx f' s = run cr cx f s.
+  Proof.
+    induction f as [|f IH]; intros s Hr Hb.
+    { pose proof (fuel_bound_pos s Hr). lia. }
+    assert (Hchild : forall f', (f <= f')%nat -> forall c, child_small s c ->
+                       child_fn cr cx f' c = child_fn cr cx f c).
+    { intros f' Hf c Hc. pose proof (fb_child s c Hr Hc).
+      destruct Hc as (Hrc & _). destruct (IH c Hrc ltac:(lia)) as [_ Heq].
+      unfold child_fn. rewrite (Heq f' Hf). reflexivity. }
+    pose proof (step_spec cr cx nooof (fun e H => H) Hco_nooof (child_fn cr cx f) s
+                  (child_ok_run cr cx f) Hr) as Hs.
+    split.
+    - rewrite run_S. destruct (pc s <? N.of_nat (length (prog s)))%N eqn:Hlt; [|reflexivity].
+      unfold step_post in Hs. destruct (step cr cx (child_fn cr cx f) s) as [[] s'|e s'].
+      + destruct Hs as (H1 & H2 & H3 & H4). apply N.ltb_lt in Hlt.
+        pose proof (fb_step s s' Hr H1 H2 H3 H4 Hlt). apply (IH s' H1). lia.
+      + destruct Hs as [He _]. unfold nooof in He. destruct e; try reflexivity. congruence.
+    - intros f' Hf'. destruct f' as [|f']; [lia|]. rewrite !run_S.
+      destruct (pc s <? N.of_nat (length (prog s)))%N eqn:Hlt; [|reflexivity].
+      rewrite (step_ext (child_fn cr cx f') (child_fn cr cx f) s Hr (Hchild f' ltac:(lia))).
+      unfold step_post in Hs. destruct (step cr cx (child_fn cr cx f) s) as [[] s'|e s']; [|reflexivity].
+      destruct Hs as (H1 & H2 & H3 & H4). apply N.ltb_lt in Hlt.
+      pose proof (fb_step s s' Hr H1 H2 H3 H4 Hlt).
+      destruct (IH s' H1 ltac:(lia)) as [_ Heq]. apply Heq. lia.
+  Qed.
+
+  (* Verify: with verify_fuel (or more) the result never is EOutOfFuel and does not depend on the fuel *)
+  Lemma verify_fuel_bound s1 L : 0 <= L -> 0 <= runlimit s1 -> pot s1 <= L -> prog s1 = cx_code cx -> pc s1 = 0%N ->
+    fuel_bound s1 <= Z.of_nat (verify_fuel cx L).
+  Proof.
+    intros HL Hr Hp Hprog Hpc. unfold verify_fuel, fuel_bound, plen. rewrite Hprog, Hpc.
+    pose proof (pot_nonneg s1 Hr) as HP.
+    set (Ln := Z.of_nat (length (cx_code cx))). assert (0 <= Ln) by (unfold Ln; lia).
+    assert (pot s1 * (Ln + 1) <= L * (Ln + 1)) by (apply Z.mul_le_mono_nonneg_r; lia).
+    assert ((pot s1 + 1) ^ 3 <= (L + 1) ^ 3) by (apply cube_mono; lia).
+    assert (0 <= L * (Ln + 1)) by (apply Z.mul_nonneg_nonneg; lia).
+    assert (0 <= (L + 1) ^ 3) by (apply Z.pow_nonneg; lia).
+    rewrite Z2Nat.id by lia. replace (Z.of_N 0) with 0 by reflexivity. lia.
+  Qed.
+
+  Theorem verify_terminates statedata args L f : 0 <= L -> (verify_fuel cx L <= f)%nat ->
+    snd (verify cr cx f statedata args L) <> Some EOutOfFuel /\
+    verify cr cx f statedata args L = verify cr cx (verify_fuel cx L) statedata args L.
+  Proof.
+    intros HL Hf. rewrite !verify_unfold. destruct (negb (cx_vmversion cx =? 1)%N); [split; [discriminate|reflexivity]|].
+    pose proof (init_pushes_spec cx statedata args L HL) as Hp.
+    destruct (init_pushes statedata args (init_state cx L)) as [a s1|e s1].
+    - destruct Hp as (Hr & Hpot & Hprog & Hpc).
+      pose proof (verify_fuel_bound s1 L HL Hr Hpot Hprog Hpc) as Hb.
+      destruct (fuel_enough (verify_fuel cx L) s1 Hr Hb) as [Hno Heq].
+      rewrite (Heq f Hf). split; [|reflexivity].
+      destruct (run cr cx (verify_fuel cx L) s1) as [[] s|e s].
+      + cbn [snd]. destruct (false_result s); discriminate.
+      + destruct e; cbn [snd]; try discriminate. cbn in Hno. discriminate.
+    - destruct Hp as (He & _). split; [|reflexivity]. cbn [snd]. congruence.
+  Qed.
+End Term.
